@@ -13,6 +13,7 @@ use crate::{
     access_control::PermissionsToken, certificate, private_key, security_error, SecurityError,
     SecurityResult,
   },
+  structure::guid::GuidPrefix,
   GUID,
 };
 use self::types::{DH_MODP_KAGREE_ALGO_NAME, ECDH_KAGREE_ALGO_NAME};
@@ -100,7 +101,7 @@ struct LocalParticipantInfo {
 // All things about remote participant that we're interested in
 struct RemoteParticipantInfo {
   //identity_token: IdentityToken,
-  //guid_prefix: GuidPrefix,
+  guid_prefix: GuidPrefix, // The GUID prefix that was given to validate_remote_identity
   identity_certificate_opt: Option<certificate::Certificate>, /* Not available at first.
                                                                * Obtained from handshake
                                                                * request/reply message */
